@@ -202,6 +202,52 @@ def d11(ctx: Ctx):
                     file=rel,
                     line=init.lineno,
                 )
+                # the context is refreshed for every byte decoded, whatever its coding
+                w0 = writes[0]
+                wl = loops_of(w0)
+                if wl:
+                    inner = wl[0]
+
+                    def must_store(stmts) -> bool:
+                        for st in stmts:
+                            if isinstance(st, ast.Assign) and any(t is w for t in st.targets for w in writes):
+                                return True
+                            if isinstance(st, ast.If) and st.orelse and must_store(st.body) and must_store(st.orelse):
+                                return True
+                        return False
+
+                    oku = must_store(inner.body)
+                    ctx.ob(
+                        f"{dec}.{fn.name}:{var}:updated",
+                        oku,
+                        "" if oku else f"`{var}[...]` is not stored on every path through the loop at line {inner.lineno}: bytes decoded on the other path (e.g. a raw line) never reach the context, so a later `same as above / before` code copies stale data",
+                        file=rel,
+                        line=w0.lineno,
+                    )
+                    widx = unparse(w0.slice)
+                    size = init.value.right.value if isinstance(init.value.right, ast.Constant) else None
+                    for r in reads:
+                        if unparse(r.slice) == widx or inner not in loops_of(r):
+                            continue
+                        sl = r.slice
+                        okw = (
+                            isinstance(sl, ast.BinOp)
+                            and isinstance(sl.op, ast.Mod)
+                            and isinstance(sl.right, ast.Constant)
+                            and sl.right.value == size
+                            and isinstance(sl.left, ast.BinOp)
+                            and isinstance(sl.left.op, ast.Sub)
+                            and unparse(sl.left.left) == widx
+                            and isinstance(sl.left.right, ast.Constant)
+                            and sl.left.right.value == 1
+                        )
+                        ctx.ob(
+                            f"{dec}.{fn.name}:{var}:previous",
+                            okw,
+                            "" if okw else f"the `previous byte` of the context is read as `{var}[{unparse(sl)}]`; the format copies the byte before the current one *cyclically* (`({widx} - 1) % {size}`): in column 0 it is the last byte of the line above",
+                            file=rel,
+                            line=r.lineno,
+                        )
     ctx.need(n >= 1, "decoders", "no loop-carried decompression buffer found (expected CM3's line buffer)")
 
 
@@ -290,3 +336,44 @@ def l8(ctx: Ctx):
     app = any(re.fullmatch(rf"{re.escape(out)}:?={re.escape(out)}\+mid\$\({re.escape(src)},1,1\)", t) or re.fullmatch(rf"{re.escape(out)}:?={re.escape(out)}\+left\$\({re.escape(src)},1\)", t) for t in texts)
     ctx.ob("ecb_string:appends-first-char", app, "" if app else "the loop body does not append the first character of the pattern string", file=LIB_REL, line=p.line)
     # ecb_instr / read filter shape facts that are decidable from text: covered by L7
+
+
+@rule("L8b", "INSTR-SHAPE: ecb_instr starts from 0, scans every position from the start index to the last possible one, compares LEN(pattern) characters and keeps the first match", ["C20"], floor=4, soft=True)
+def l8b(ctx: Ctx):
+    L = b09lib(ctx)
+    if "ecb_instr" not in L.procs:
+        raise IdiomNotFound("ecb_instr not found")
+    p = L.procs["ecb_instr"]
+    if len(p.params) != 4:
+        raise IdiomNotFound("ecb_instr(index, str0, str1, outindex) signature not recognised")
+    idx, hay, pat, out = (re.escape(x[0]) for x in p.params)
+    stmts = list(L.all_stmts(p))
+    texts = [_norm(s.text) for s in stmts]
+    fi = next((i for i, t in enumerate(texts) if t.startswith("for")), None)
+    if fi is None:
+        raise IdiomNotFound("FOR loop not recognised")
+    m = re.fullmatch(r"for(\w+)=(.+?)to(.+?)(?:step(-?\d+))?", texts[fi])
+    if m is None:
+        raise IdiomNotFound(f"`{stmts[fi].text.strip()}` not of the form FOR v = a TO b [STEP k]")
+    v, a, b, step = m.group(1), m.group(2), m.group(3), int(m.group(4) or 1)
+    init = any(re.fullmatch(rf"{out}:?=0(\.0*)?", t) for t in texts[:fi])
+    ctx.ob("ecb_instr:starts-at-0", init, "" if init else f"the result is not set to 0 before the scan: when the pattern does not occur the caller's temporary keeps its previous value (Color BASIC returns 0)", file=LIB_REL, line=p.line, witness="" if init else 'INSTR(1,"ABC","Z")')
+    first = rf"(fix|int)\({idx}\)|{idx}"
+    last = rf"len\({hay}\)-len\({pat}\)\+1|len\({hay}\)\+1-len\({pat}\)|1\+len\({hay}\)-len\({pat}\)"
+    asc = step > 0 and re.fullmatch(first, a) and re.fullmatch(last, b)
+    desc = step == -1 and re.fullmatch(last, a) and re.fullmatch(first, b)
+    okb = bool(asc or desc)
+    ctx.ob("ecb_instr:bounds", okb, "" if okb else f"the scan `{stmts[fi].text.strip()}` does not cover exactly the positions start .. LEN(str0) - LEN(str1) + 1: a match at the very end is missed (or positions before the start index are searched)", file=LIB_REL, line=stmts[fi].line, witness="" if okb else 'INSTR(1,"ABC","C")')
+    ci = next((i for i, t in enumerate(texts) if i > fi and t.startswith("if") and "mid$" in t), None)
+    if ci is None:
+        raise IdiomNotFound("comparison with MID$ not recognised")
+    win = rf"mid\$\({hay},{v},len\({pat}\)\)"
+    okw = re.fullmatch(rf"if(?:{pat}={win}|{win}={pat})then", texts[ci]) is not None
+    ctx.ob("ecb_instr:window", okw, "" if okw else f"`{stmts[ci].text.strip()}` does not compare the pattern with exactly LEN(pattern) characters at the candidate position", file=LIB_REL, line=stmts[ci].line, witness="" if okw else 'INSTR(1,"ABCD","BC")')
+    asg = next((i for i, t in enumerate(texts) if i > ci and re.fullmatch(rf"{out}:?={v}", t)), None)
+    oka = asg is not None
+    ctx.ob("ecb_instr:records-position", oka, "" if oka else "a match does not store the candidate position in the result", file=LIB_REL, line=stmts[ci].line)
+    # first match: scanning downwards the smallest position is stored last; scanning upwards the scan must stop at a match
+    stops = any(re.fullmatch(r"end|exitif.*|goto\d+", t) for t in texts[ci : (texts.index("endif", ci) if "endif" in texts[ci:] else len(texts))])
+    okf = bool(desc) or (bool(asc) and stops) or not okb
+    ctx.ob("ecb_instr:first-match", okf, "" if okf else "the scan runs upwards and goes on after a match: the last occurrence is returned, not the first", file=LIB_REL, line=stmts[fi].line, witness="" if okf else 'INSTR(1,"ABAB","AB")')
